@@ -43,8 +43,21 @@ NOFIX_CFGS = {
 FIX_ONLY_NOTHING = {"fix": {"rule": {}}}
 
 
+def dirty_of(desc):
+    """Class (d) only: the files of the batch that are expected to be fixed (not protected)."""
+    return set((desc.get("meta") or {}).get("dirty") or [])
+
+
 def inputs_of(desc):
-    return sorted(f["path"] for f in desc["sandbox"])
+    d = dirty_of(desc)
+    return sorted(f["path"] for f in desc["sandbox"] if f["path"] not in d)
+
+
+def belongs_to_dirty(desc, p):
+    for d in dirty_of(desc):
+        if p == d or (os.path.dirname(p) == os.path.dirname(d) and os.path.basename(p).startswith(os.path.basename(d) + ".")):
+            return True
+    return False
 
 
 def allowed_new(desc):
@@ -72,11 +85,17 @@ def evaluate(desc, res):
 
     inputs = set(inputs_of(desc))
     okn = allowed_new(desc)
-    fixers = sorted({rec[3].split()[1] for rec in res["records"] if rec[0] == "out" and rec[2] == "sim" and rec[3].startswith("fixer ")})
+    by_file = {}
+    for rec in res["records"]:
+        if rec[0] == "out" and rec[2] == "sim" and rec[3].startswith("fixer "):
+            w = rec[3].split()
+            by_file.setdefault(os.path.normpath(w[2]) if len(w) > 2 else "?", set()).add(w[1])
     for o in runner.ops_of(res):
         if o["kind"] in MUTATING and o["kind"] != "close":
             p = os.path.normpath(o["path"])
             src = o["extra"] if o["kind"] in ("replace", "link") else None
+            if belongs_to_dirty(desc, p):
+                continue
             if p in inputs and p not in okn:
                 add("input-mutated", p, {"op": o["kind"], "proc": o["proc"], "task": o["task"], "n": o["n"], "from": src})
             elif p not in inputs and p not in okn and o["performed"] and not o["err"] and o["kind"] in ("open-w", "copy-open", "replace", "link", "mkdir"):
@@ -91,12 +110,20 @@ def evaluate(desc, res):
         elif (a["ino"], a["mtime"]) != (b["ino"], b["mtime"]):
             add("inode-or-mtime-changed", p, {"inode_changed": a["ino"] != b["ino"], "mtime_changed": a["mtime"] != b["mtime"]})
     for p in res["after"]:
-        if p not in inputs and p not in okn:
+        if p not in inputs and p not in okn and not belongs_to_dirty(desc, p):
             add("stray-file-created", p, {"op": "present-at-end"})
-    bases = {r[0]: list(r[7]) for r in runner.RULES if r[0] in fixers}
+    allb = {r[0]: list(r[7]) for r in runner.RULES}
     for v in V:
-        v["observed"]["fixers"] = fixers
-        v["observed"]["fixer_bases"] = bases
+        # the rules whose fix() changed the file this violation is about (its own name, or the
+        # temporary / backup sibling named after it)
+        t = v["target"]
+        owner = None
+        for p in inputs:
+            if t == p or (os.path.dirname(t) == os.path.dirname(p) and os.path.basename(t).startswith(os.path.basename(p) + ".")):
+                owner = p
+        fx = sorted(by_file.get(owner, set())) if owner else sorted(set().union(*by_file.values())) if by_file else []
+        v["observed"]["fixers"] = fx
+        v["observed"]["fixer_bases"] = {u: allb.get(u, []) for u in fx}
         v["observed"]["member"] = (desc.get("meta") or {}).get("class")
     return V
 
@@ -284,6 +311,41 @@ def gen_c(seed, env):
     return _desc(seed, rng, sandbox, argv, {"class": "c", "files": meta, "style": style})
 
 
+def gen_d(seed, env):
+    """Mixed --fix batch: files that are clean (protected: must stay untouched) next to files with
+    fixable violations (which get fixed in the same run, by the same workers)."""
+    rng = substream(seed, "c04d")
+    style = rng.choice(workload.STYLES)
+    sandbox, names, meta, dirty = [], [], [], []
+    for i in range(rng.randint(1, 2)):
+        got = make_clean(rng, env, style)
+        if got is None:
+            continue
+        label, data = got
+        name = "src/c%d.vhd" % i
+        sandbox.append(workload.sb_entry(name, data, rng.choice(workload.MODES)))
+        names.append(name)
+        meta.append({"path": name, "from": "clean(" + label + ")", "tags": [], "size": len(data), "digest": wire.digest(data)})
+    if not names:
+        return None
+    for i in range(rng.randint(1, 3)):
+        label, data = workload.pick_bytes(rng, rng.choice(["small"] * 6 + ["mid"] * 2))
+        data = workload.plant_violations(rng, data, 0.2)
+        name = "src/d%d.vhd" % i
+        sandbox.append(workload.sb_entry(name, data, rng.choice(workload.MODES)))
+        names.append(name)
+        dirty.append(name)
+        meta.append({"path": name, "from": "dirty(" + label + ")", "tags": ["planted"], "size": len(data), "digest": wire.digest(data)})
+    rng.shuffle(names)
+    argv = ["-p", str(rng.choice([1, 1, 2, 3])), "--fix"]
+    if rng.random() < 0.3:
+        argv.append("--backup")
+    if style:
+        argv += ["--style", style]
+    argv += ["-f"] + names
+    return _desc(seed, rng, sandbox, argv, {"class": "d", "files": meta, "style": style, "dirty": dirty})
+
+
 def is_clean(desc, env):
     """Class (c) membership: every input file is reported violation-free by `vsg -ap` under the
     same style on this tree."""
@@ -295,7 +357,7 @@ def is_clean(desc, env):
         extra = [f for f in desc["sandbox"] if f["path"] == cname]
         opts += ["-c", cname]
     for f in desc["sandbox"]:
-        if not f["path"].endswith(".vhd"):
+        if not f["path"].endswith(".vhd") or f["path"] in dirty_of(desc):
             continue
         key = ("c04clean", f["b64"], tuple(opts), tuple(e["b64"] for e in extra))
         if key not in env.cache:
@@ -337,6 +399,10 @@ def member(desc, env):
         return None
     if (desc.get("meta") or {}).get("class") == "c" and is_clean(desc, env):
         return "c"
+    if (desc.get("meta") or {}).get("class") == "d" and is_clean(desc, env):
+        # mixed batch: the clean files are protected, the others may be fixed
+        if any(f["path"].endswith(".vhd") and f["path"] not in dirty_of(desc) for f in desc["sandbox"]):
+            return "d"
     return None
 
 
@@ -352,11 +418,11 @@ def judge(desc, env):
 
 def plan(tier, seed):
     if tier == "quick":
-        na, nb, nc = 250, 90, 70
+        na, nb, nc, nd = 250, 90, 70, 40
     else:
-        na, nb, nc = 6000, 2500, 1500
+        na, nb, nc, nd = 6000, 2500, 1500, 1000
     jobs = []
-    for m, n in (("a", na), ("b", nb), ("c", nc)):
+    for m, n in (("a", na), ("b", nb), ("c", nc), ("d", nd)):
         for i in range(n):
             jobs.append({"prop": PROP, "mode": m, "i": i, "seed": H(seed, tier, PROP, m, i)})
     jobs += common.regress_jobs(PROP, 4)
@@ -378,7 +444,7 @@ def run_job(job, env):
     elif mode == "b":
         d = gen_b(seed)
     else:
-        d = gen_c(seed, env)
+        d = gen_d(seed, env) if mode == "d" else gen_c(seed, env)
         if d is None:
             out.skipped("no-clean-file-obtained")
             return out.done()
